@@ -1,5 +1,7 @@
 """C12 -- untrusted peers cannot alter the chain, vouch for transactions or stall syncing (chain part: ChainSync;
-transaction part: TxPipeline, see checks/txpipeline.py when built)."""
+transaction part: TxPipeline; the untrusted connection itself: UntrustedPeer)."""
+import json
+
 from vf import core, pipeline
 from . import chainsync as cs
 
@@ -19,8 +21,8 @@ def main(argv):
         if r.violated:
             scripts.append(cs.cex_script(r, name))
     if chk.replay:
-        import json
-        scripts = [json.load(open(chk.replay))['replay']['script']]
+        rp = json.load(open(chk.replay))['replay']['script']
+        scripts = [] if (rp.get('module') == 'UntrustedPeer' or 'uni' in rp) else [rp]
     else:
         for a in pipeline.attack_scripts('C12', 'ChainSync'):
             scripts.append(dict(a, **{'complete': True, 'adv': False, 'env': 'attack', 'tree': a.get('tree', 'Par7'), 'ptip': a.get('ptip', 4)}))
@@ -28,18 +30,34 @@ def main(argv):
         seed = chk.seed * 100
         scripts += cs.gen(chk, 'untrusted', 'Par7', 350 * k, 80, seed + 21)
         scripts += cs.gen(chk, 'untrusted', 'Par14', 60 * k, 130, seed + 22)
-    res = cs.run(chk, scripts, FORMULAS, models)
+    res = cs.run(chk, scripts, FORMULAS, models) if scripts else {'traces': 0, 'drift': [], 'lines': 0, 'rejected': 0, 'skips': 0, 'false_instances': 0, 'bad_traces': set()}
     for name, r in models:
         if r.violated and ('model-cex-%s' % name) not in res['bad_traces']:
             chk.infra('new unreproduced model counterexample: %s (%s)' % (name, r.violated))
     # vouching: transactions of untrusted connections (plain and extended messages, inventories) never make a tx trusted or safe
+    TPF = {'TrustWarranted', 'ItemTrust', 'SafeOnlyWarranted', 'UnverifiedIgnored', 'NoError', 'NoPanic'}
+    if chk.replay and 'uni' in rp:
+        from . import txpipeline as tp
+        tp.run(chk, [{'id': rp['id'], 'uni': rp['uni'], 'race': False, 'steps': rp['steps']}], TPF)
     if not chk.replay:
         from . import txpipeline as tp
         allsrc = {'Sources <- Src5': 'Sources <- SrcAll'}     # incl. an untrusted connection that has not been verified ("NU" / "NX")
         tsims = (tp.gen(chk, 'U4', 160 if thorough else 50, 45, chk.seed * 100 + 23, extra=allsrc)
                  + tp.gen(chk, 'U3', 160 if thorough else 50, 40, chk.seed * 100 + 24, extra=allsrc))
-        tres = tp.run(chk, tsims, {'TrustWarranted', 'ItemTrust', 'SafeOnlyWarranted', 'UnverifiedIgnored', 'NoError', 'NoPanic'})
+        tres = tp.run(chk, tsims, TPF)
         chk.notes.append('vouching batch: %d TxPipeline histories, %d lines' % (len(tsims), tres['lines']))
+    # the untrusted connection itself: handshake, verification against the stored chain, gating, scoring, broadcast (UntrustedPeer)
+    up = None
+    if chk.replay:
+        if rp.get('module') == 'UntrustedPeer':
+            from . import untrustedpeer as upm
+            up = upm.run(chk, [{'id': rp['id'], 'steps': rp['steps']}])
+    else:
+        from . import untrustedpeer as upm
+        models += [('untrusted-connection', r) for r in upm.model(chk, thorough)]
+        up = upm.run(chk, upm.gen(chk, thorough))
+        chk.notes.append('untrusted connection batch: %d scenarios on the real read loop, %d lines, %d verified, %d refused' % (
+            up['traces'], up['lines'], up['verified'], up['failed']))
     nu = sum(1 for s in scripts for x in s['steps'] if x['a'] == 'UntrustedBlock')
     chk.finish({
         'states': sum(r.distinct for _, r in models), 'transitions': sum(r.generated for _, r in models),
